@@ -90,6 +90,39 @@ def run(repo, rep):
                           a.where, 'test and act under a common lock',
                           'unsynchronised check-then-act on shared %s in %s: test at line %d, then %s (no lock is held across both)'
                           % (t.obj.key, t.fn.key, t.node.lineno, risky), nontrivial=True)
+    # iterate-while-resized: a Python-level loop (for / comprehension) over a shared dict or set - or over a view of it - inside the
+    # printing pipeline, when some function of the pipeline adds or removes keys of that object: another thread's print resizes it
+    # between two steps of the loop and the loop raises RuntimeError (dictionary changed size during iteration).  A snapshot taken by
+    # one call (list(d), tuple(d), sorted(d), d.copy()) is a single operation and is not a loop over the live object.
+    RESIZERS = set(SS.REMOVERS) | {'setitem', 'delitem', 'update', 'setdefault', 'add', 'discard', 'clear', 'popitem'}
+    resized = {}
+    for s in cone_sites:
+        if s.kind == 'write' and s.detail in RESIZERS and s.obj.kind in ('dict', 'set'):
+            resized.setdefault(s.obj.key, []).append(s)
+    fns_by_key = {f.key: f for f in repo.all_functions()}
+    for fk in sorted(cone):
+        f = fns_by_key.get(fk)
+        if f is None:
+            continue
+        shared_names = {o.name: o for (mn, nm), o in shared.items() if o.module is f.module} if isinstance(shared, dict) else {}
+        for lp in ast.walk(f.node):
+            if not isinstance(lp, (ast.For, ast.comprehension)):
+                continue
+            itx = lp.iter
+            if isinstance(itx, ast.Call) and isinstance(itx.func, ast.Attribute) and itx.func.attr in ('items', 'keys', 'values') and not itx.args:
+                itx = itx.func.value
+            if not isinstance(itx, ast.Name):
+                continue
+            o = shared_names.get(itx.id)
+            if o is None or o.key not in resized:
+                continue
+            n += 1
+            w0 = resized[o.key][0]
+            common = SS.held_locks(lp.iter, f.node, lock_names) & SS.held_locks(w0.node, w0.fn.node, lock_names)
+            rep.check(bool(common), 'C20.a', '%s:iterates-while-resized:%s' % (f.qualname, o.name), '%s:%d' % (f.module.relpath, lp.iter.lineno),
+                      'loop and resizing write under a common lock',
+                      '%s loops over the shared %s %s (%s) while %s %s it at %s: a concurrent print resizes it between two steps of the loop, which '
+                      'then raises RuntimeError (changed size during iteration)' % (f.key, o.kind, o.key, src(lp.iter), w0.fn.key, w0.detail, w0.where), nontrivial=True)
     # positive control: the rule must still recognise the classic shape (kept as an in-memory example)
     ctl = _control_fires()
     n += 1
